@@ -367,9 +367,11 @@ func (c *Ctx) OneElementPerIteration(ob *core.Obligation, rel, fname string) {
 			continue
 		}
 		appends := false
-		for _, ci := range core.Calls(g) {
-			if bi, ok := ci.Common().Value.(*ssa.Builtin); ok && bi.Name() == "append" && isBigSlice(ci.Common().Args[0].Type()) {
-				appends = true
+		for _, h := range append([]*ssa.Function{g}, g.AnonFuncs...) {
+			for _, ci := range core.Calls(h) {
+				if bi, ok := ci.Common().Value.(*ssa.Builtin); ok && bi.Name() == "append" && isBigSlice(ci.Common().Args[0].Type()) {
+					appends = true
+				}
 			}
 		}
 		if !appends {
@@ -389,10 +391,22 @@ func (c *Ctx) oneElementPerIteration(ob *core.Obligation, fn *ssa.Function, av *
 	key := "one-per-item:" + core.SSAName(fn)
 	// blocks that append to a slice of rationals
 	app := map[*ssa.BasicBlock]bool{}
+	appendsBig := func(g *ssa.Function) bool {
+		for _, ci := range core.Calls(g) {
+			if bi, ok := ci.Common().Value.(*ssa.Builtin); ok && bi.Name() == "append" && isBigSlice(ci.Common().Args[0].Type()) && blockOnEveryPath(g, ci.Block()) {
+				return true
+			}
+		}
+		return false
+	}
 	for _, b := range fn.Blocks {
 		for _, in := range b.Instrs {
 			if call, ok := in.(*ssa.Call); ok {
 				if bi, ok := call.Call.Value.(*ssa.Builtin); ok && bi.Name() == "append" && isBigSlice(call.Call.Args[0].Type()) {
+					app[b] = true
+				}
+				// a local closure that appends on every path through it
+				if sc := call.Call.StaticCallee(); sc != nil && sc.Parent() == fn && appendsBig(sc) {
 					app[b] = true
 				}
 			}
